@@ -28,7 +28,9 @@ are three sufficient conditions under which threads cannot disturb each other th
       *operations*, never through a value it already holds;
   H9a where entries can be evicted, every operation that needs its key present tolerates a concurrent eviction (try / lock);
   H9b populate-once state is published atomically (one write statement or under a lock);
-  H12 a temporary patch of a shared object (save / set / restore) runs under a lock.
+  H12 a temporary patch of a shared object (save / set / restore) runs under a lock;
+  H13 no function sets a module-level name AROUND a computation that reads it (save / set / compute / restore, or a context manager
+      setting it for its with-body) without a lock: such a name is a dynamically scoped parameter shared by all threads.
 A failed condition is `unknown` until the native replayer exhibits a schedule: two threads under a controlled scheduler
 (sys.settrace), one preemption at every line of the functions that touch the state (H9, H10), or two context switches at every
 pair of lines of the patching context manager (H12).  H9a and H9b were repaired in /repo (fix: commits); H12 still fails on
